@@ -70,6 +70,10 @@ def slice_boundaries_ok(ctx):
                 form_ok = True
             elif v[0] == 'binop' and v[1] in ('Add', 'Sub') and strip(v[3]) == ('int', 1) and strip(v[2])[0] in ('call', 'mlocal') and ('offset' in s_ or True):
                 form_ok = 'offset' in s_ or strip(v[2])[0] == 'mlocal'
+            elif v[0] == 'binop' and v[1] == 'Sub' and strip(v[2])[0] == 'call' and strip(v[2])[1] == T + 'offset' and strip(v[3])[0] == 'call' \
+                    and strip(v[3])[1].endswith('char::methods::<impl char>::len_utf8') and 'bump' in str(strip(v[3])[2]):
+                # offset() - c.len_utf8() with c a character bump() handed out: the boundary in front of that character
+                form_ok = True
             elif v[0] == 'mlocal' or v[0] == 'param':
                 # `start`: a value of offset() saved earlier
                 ds = f.defs().get(v[1], []) if v[0] == 'mlocal' else []
